@@ -26,9 +26,12 @@ Bodies == {Rule("", "allow", {"a1"}, {"a3"}, {"s80"}, ""), Rule("", "allow", {"a
            Rule("", "deny", {"any"}, {"a3"}, {"any"}, ""), Rule("", "allow", {"a2"}, {"a3"}, {"s80", "s22"}, "")}
 DevNames == <<"r1", "r2", "r3", "r4">>
 TgtNames == <<"r1", "r2", "r3", "r4">>
+\* device rule names after earlier approves: a renamed rule r1-1 / r2-1 next to r1 / r2
+DevNames2 == <<"r1", "r1-1", "r2", "r2-1">>
 P1 ==
-  \E a, b \in InjSeqs(Bodies, MaxLen) :
-    /\ dev = Cfg(Named(a, DevNames), NoFn, NoFn, AddrVal, SvcVal)
+  \E a, b \in InjSeqs(Bodies, MaxLen), dn \in {DevNames, DevNames2} :
+    /\ (a = <<>> => dn = DevNames)
+    /\ dev = Cfg(Named(a, dn), NoFn, NoFn, AddrVal, SvcVal)
     /\ tgt = Cfg(Named(b, TgtNames), NoFn, NoFn, AddrVal, SvcVal)
 
 (* P2: address-groups renamed / shared / split between rules, name clashes g0 vs g0-1 *)
